@@ -246,6 +246,33 @@ def run_item(item):
     mini = df[roots2] if "p_id" in roots2 else df[[*roots2, "p_id"]]
     if "p_id" in roots2:
         run(tsub, "minimal_raise", data=mini, check_minimal_specification="raise")
+    # a data column that overrides a rule (with values of the user's own) next to a target that depends on it: whether the
+    # overriding column itself is ALSO requested must not matter (the unchanged tree refuses such a target: loud is fine)
+    cand = [t for t in my_nodes if t in functions and S0[t].dtype.kind == "f" and any(c in nodes for c in dag.successors(t))]
+    for t in cand[:3]:
+        child = next(c for c in dag.successors(t) if c in nodes)
+        data2 = df.copy()
+        data2[t] = S0[t].to_numpy() + 100.0
+        try:
+            with warnings.catch_warnings():
+                warnings.simplefilter("ignore")
+                a = env.compute_taxes_and_transfers(data2, params, functions, targets=[child])
+        except Exception:  # noqa: BLE001
+            continue
+        res["kinds"]["overriding_column_also_target"] = res["kinds"].get("overriding_column_also_target", 0) + 1
+        try:
+            with warnings.catch_warnings():
+                warnings.simplefilter("ignore")
+                b = env.compute_taxes_and_transfers(data2, params, functions, targets=[child, t])
+        except Exception:  # noqa: BLE001
+            res["kinds"]["overriding_column_also_target:rejected"] = res["kinds"].get("overriding_column_also_target:rejected", 0) + 1
+            continue
+        res["runs"] += 2
+        if not _eq(a[child].to_numpy(), b[child].to_numpy()):
+            viol(f"{child}:value:overriding_column_also_target",
+                 f"data column {t} (user values) overrides the rule; {child} differs between targets=[{child}] and targets=[{child}, {t}]")
+        elif t in b.columns and not _eq(b[t].to_numpy(), data2[t].to_numpy()):
+            viol(f"{t}:value:overriding_column_also_target", f"data column {t} overrides the rule but requesting it returns other values than the data")
     res["sample"] = dict(date=item["date"], population=popgen.describe(df),
                          target_sets=[list(t[1])[:5] for t in res["target_sets"][:6]])
     res["target_sets"] = [(a, hash(b), c) for a, b, c in res["target_sets"]]
